@@ -10,6 +10,7 @@ import (
 	"go.lstv.dev/util/sem"
 	"go.lstv.dev/util/size"
 	"go.lstv.dev/util/uu"
+	"verif/firstuse"
 	"verif/libdefaults"
 	"verif/mc"
 	"verif/oracle"
@@ -217,6 +218,7 @@ func probeURN(a urnArg) (string, string) {
 func main() {
 	mc.Main("C16", "every (type, value, flag subset, prefix, spare capacity) of the stated grids; prefixes include every single byte value and the letters/digits each formatter emits; "+
 		"non-trivial = the prefix contains a byte the formatter itself can emit", func(r *mc.Run) {
+		firstuse.Phase(r, map[string][]string{"date": {"format"}, "roman": {"format"}, "sem": {"format"}, "size": {"format"}, "uu": {"format"}})
 		p := mc.NewProbe(r, "append", nil, probe)
 		pu := mc.NewProbe(r, "urn", setupURN, probeURN)
 		r.Reset = libdefaults.All
